@@ -5,7 +5,8 @@ HERE = os.path.dirname(os.path.dirname(os.path.abspath(__file__)))
 props = [json.loads(l) for l in open(os.path.join(HERE, 'properties.jsonl'))]
 
 KERNEL_NOTE = ('real instead of float arithmetic; decimal literals within 5e-14; table functions used through their C10 contracts; '
-               'scipy coo/csr duplicate-summing and make_symmetric mirroring assumed (A4); the .pyx -> ast extraction (A5); the prebuilt '
+               'scipy coo/csr duplicate-summing assumed (A4); make_symmetric / make_skew_symmetric / finalize_symmetric_matrix are proved for every COO input in C02 / C19 '
+               '(generic stored entry, cmverif/segcoo.py; numpy mask selection / concatenate / where / fancy assignment trusted); the .pyx -> ast extraction (A5); the prebuilt '
                '.so cannot be rebuilt here (no Cython) so the verdict is about the source tree, binary replays are attached where they reproduce')
 
 EIG_NOTE = ('the contracts of scipy eigsh/eigs/eigh/eig and of sparse.remove_null_cols are ASSUMED (stated in cmverif/eigctx.py): eigenpairs of the pair '
